@@ -241,6 +241,319 @@ def numfile_expected(case):
     return exp
 
 
+# ----------------------------------------------------------------------------- matrices of numbers in any layout (mfile)
+
+def _num_ok(v):
+    return isinstance(v, list) and len(v) in (1, 2) and all(isinstance(x, int) and not isinstance(x, bool) for x in v) and \
+        (len(v) == 1 or 0 <= v[1] < 60)
+
+
+def _skip_line(l):
+    """a comment / blank line dict, sanitised; None if it is something else"""
+    if isinstance(l, dict) and l.get('k') in ('c', 'b'):
+        return {'k': l['k'], 't': str(l.get('t', '')), 'lead': str(l.get('lead', ''))}
+    return None
+
+
+def mfile_norm(case):
+    """(pre, header, body, eol, final) of an mfile case after sanitising (robust against shrinking)"""
+    pre = [x for x in (_skip_line(l) for l in case.get('pre', [])) if x]
+    h = case.get('header') if isinstance(case.get('header'), dict) else {}
+    letters = [w for w in (_clean_word(x) for x in h.get('w', [])) if w] or ['A']
+    if letters[0].startswith('#'):
+        letters[0] = 'A' + letters[0]
+    header = {'w': letters, 'sep': _ws(h.get('sep'), ' '), 'lead': _ws(h.get('lead'), ''), 'trail': _ws(h.get('trail'), '')}
+    body = []
+    for l in case.get('body', []):
+        sk = _skip_line(l)
+        if sk:
+            body.append(sk)
+            continue
+        if not isinstance(l, dict):
+            continue
+        name = _clean_word(l.get('r'))
+        cells = [[_ws(c[0], ' '), c[1]] for c in l.get('cells', []) if isinstance(c, list) and len(c) == 2 and _num_ok(c[1])]
+        if name and not name.startswith('#') and cells:
+            body.append({'k': 'r', 'r': name, 'cells': cells, 'lead': _ws(l.get('lead'), ''), 'trail': _ws(l.get('trail'), '')})
+    e = case.get('eol') if case.get('eol') in EOLS else 'LF'
+    return pre, header, body, e, bool(case.get('final', True))
+
+
+def mfile_text(case):
+    pre, header, body, e, final = mfile_norm(case)
+    lines = [render_line(l) for l in pre]
+    lines.append(header['lead'] + header['sep'].join(header['w']) + header['trail'])
+    for l in body:
+        if l['k'] == 'r':
+            lines.append(l['lead'] + l['r'] + ''.join(sep + py_num(v) for sep, v in l['cells']) + l['trail'])
+        else:
+            lines.append(render_line(l))
+    return EOLS[e].join(lines) + (EOLS[e] if final else '')
+
+
+def mfile_term(case):
+    pre, header, body, e, final = mfile_norm(case)
+
+    def num(v):
+        return '(NInt (%d)%%Z)' % v[0] if len(v) == 1 else '(NDec (%d)%%Z %d%%nat)' % (v[0], v[1])
+
+    def ml(l):
+        if l['k'] == 'r':
+            return '(MRow %s %s %s %s)' % (coq_bs(l['lead']), coq_bs(l['r']),
+                                           coq_list(['(%s, %s)' % (coq_bs(sep), num(v)) for sep, v in l['cells']]), coq_bs(l['trail']))
+        return '(MSkip %s)' % coq_aline(l)
+    w = header['w']
+    return 'out (run_C20m %s %s (MFile %s %s %s %s %s %s))' % (
+        e, 'true' if final else 'false', coq_list([coq_aline(l) for l in pre]), coq_bs(header['lead']), coq_bs(w[0]),
+        coq_list(['(%s, %s)' % (coq_bs(header['sep']), coq_bs(x)) for x in w[1:]]), coq_bs(header['trail']),
+        coq_list([ml(l) for l in body]))
+
+
+def _py_value(v, dec):
+    if len(v) == 2:
+        return _to_float(Fraction(v[0], 10 ** v[1]))
+    return _to_float(Fraction(v[0])) if dec else v[0]
+
+
+def _to_float(q):
+    try:
+        return float(q)
+    except OverflowError:
+        return float('inf') if q > 0 else float('-inf')
+
+
+def mfile_expected(case):
+    """first principles: row r, j-th header letter -> j-th number of the row; one decimal literal makes the ROW float"""
+    pre, header, body, e, final = mfile_norm(case)
+    letters = header['w']
+    rows = [l for l in body if l['k'] == 'r']
+    if len(set(letters)) != len(letters) or len(set(l['r'] for l in rows)) != len(rows):
+        return None
+    exp = {}
+    for l in rows:
+        dec = any(len(v) == 2 for sep, v in l['cells'])
+        exp[l['r']] = {c: _py_value(v, dec) for c, (sep, v) in zip(letters, l['cells'])}
+    return exp
+
+
+def gen_mfile(rng):
+    n = rng.choice([1, 2, 3, 4, 6])
+    letters = [l for l in _letters(rng, n, LETTER_POOLS[:5]) if not l.startswith('#')] or ['A']
+    sq = rng.random() < 0.6
+    rows = list(letters) if sq else _letters(rng, rng.choice([1, 2, 3, 5]), LETTER_POOLS[:5])
+    if rng.random() < 0.1 and rows:
+        rows.append(rows[0])                       # a repeated row letter: the later row replaces the earlier one at its place
+    if rng.random() < 0.08 and len(letters) > 1:
+        letters.append(letters[0])                 # a repeated header letter: the later column wins
+    sep = lambda: rng.choice([' ', ' ', '  ', '\t', ' \t ', '\x1f', '\xa0', '     '])
+    body = []
+    for r in rows:
+        if rng.random() < 0.2:
+            body.append(_comment(rng) if rng.random() < 0.6 else _blank(rng))
+        kind = rng.choice(['int', 'int', 'dec', 'dec', 'mixed'])
+        m = max(1, len(letters) + rng.choice([0, 0, 0, -1, -2, 1, 3]))
+        cells = []
+        for j in range(m):
+            mant = rng.choice([0, 0, 1, -1, 5, -5, 12, -125, 1250, rng.randint(-10 ** 6, 10 ** 6), rng.randint(-10 ** 20, 10 ** 20), 2 ** 53 + 1])
+            isdec = kind == 'dec' or (kind == 'mixed' and rng.random() < 0.4)
+            cells.append([sep(), [mant, rng.choice([0, 1, 2, 2, 3, 5, 9, 17, 25])] if isdec else [mant]])
+        body.append({'k': 'r', 'r': r, 'cells': cells, 'lead': rng.choice(['', '', ' ', '\t']), 'trail': rng.choice(['', '', ' ', '  \t', '\xa0'])})
+    for _ in range(rng.choice([0, 0, 1, 2])):
+        body.append(_comment(rng) if rng.random() < 0.5 else _blank(rng))
+    pre = [(_comment(rng) if rng.random() < 0.7 else _blank(rng)) for _ in range(rng.choice([0, 0, 1, 2, 4]))]
+    return {'op': 'mfile', 'pre': pre, 'header': {'w': letters, 'sep': sep(), 'lead': rng.choice(['', ' ', '   ', '\t']), 'trail': rng.choice(['', '', ' ', '\t '])},
+            'body': body, 'eol': rng.choice(['LF', 'LF', 'CRLF', 'CR']), 'final': rng.random() < 0.7, 'aspath': rng.random() < 0.3}
+
+
+# ----------------------------------------------------------------------------- single cell words read by int() / float()
+
+NUM_ALPHABET = '0123456789._eE+-'
+
+
+def gen_numtok(rng):
+    r = rng.random()
+    digs = lambda a, b: ''.join(rng.choice('0123456789') for _ in range(rng.randint(a, b)))
+    if r < 0.25:
+        t = ''.join(rng.choice(NUM_ALPHABET) for _ in range(rng.randint(1, 7)))
+    elif r < 0.4:
+        t = ''.join(rng.choice('01._e+-') for _ in range(rng.randint(1, 6)))
+    elif r < 0.6:                                     # exponent forms
+        t = rng.choice(['', '+', '-']) + rng.choice([digs(1, 3), digs(1, 3) + '.', '.' + digs(1, 3), digs(0, 3) + '.' + digs(0, 4), '']) + \
+            rng.choice('eE') + rng.choice(['', '+', '-', '-', '--']) + rng.choice([digs(1, 2), digs(1, 3), digs(0, 1), digs(3, 5), '3' + digs(2, 2)])
+    elif r < 0.78:                                    # underscores
+        t = rng.choice(['', '+', '-']) + digs(1, 4)
+        for _ in range(rng.randint(1, 3)):
+            i = rng.randint(0, len(t))
+            t = t[:i] + rng.choice(['_', '_', '_', '__', '.', '_.', '._', 'e', '_e', 'e_']) + t[i:]
+    elif r < 0.86:
+        t = rng.choice(['inf', 'Inf', 'INF', '-inf', '+inf', 'infinity', '-Infinity', 'iNfInItY', 'nan', 'NaN', '-nan', '+NAN', 'infinit', 'na', 'in_f',
+                        'nane', 'infe5', 'e', 'E5', '1e400', '-1e400', '1e-400', '1e308', '1.8e308', '5e-324', '2e-324', '1e999', '0e999', '1e0005'])
+    elif r < 0.93:
+        t = rng.choice(['', '+', '-', '+-', '-+', '--']) + '0' * rng.randint(0, 3) + digs(1, 25) + rng.choice(['', '', '.', '.0', '.' + digs(1, 20)])
+    else:
+        t = rng.choice(['', '.', '+', '-', '+.', '-.e1', '1.5.2', '0x10', '0b1', '0o7', '1,5', '\xb2', '1\xb2', '\xbd', '1\x00', '\x001', '1 ', ' 1', '1 2', '1\t', '\n1',
+                        '1\xa0', '\x851', '1L', '1j', '1f', '1d5', '1D5', '1e5L', '١', '1/2', '1e5.', '1e5.0', '1e.5', '.e5', '1.e5', '5.E-3', '+.5e+1'])
+    return {'op': 'numtok', 'tok': t}
+
+
+def _read(f, t):
+    try:
+        return canon_num(f(t))
+    except ValueError:
+        return {'e': 'ValueError'}
+
+
+def _is_word(t):
+    return t != '' and not any(ch.isspace() for ch in t) and all(ord(ch) < 256 for ch in t) and '\x00' not in t
+
+
+def impl_numtok(case):
+    """CPython's int()/float() on the word, and the same word as the only cell of a row loaded by submat"""
+    from sugar.data import submat
+    t = case['tok']
+    out = [_read(int, t), _read(float, t)]
+    if _is_word(t):
+        for text, want in (('X\nr %s\n' % t, out[1] if '.' in t else out[0]), ('X Y\nr %s 0.5\n' % t, out[1])):
+            fd, p = tempfile.mkstemp(prefix='C20-num-')
+            try:
+                with os.fdopen(fd, 'wb') as f:
+                    f.write(file_bytes(text))
+                try:
+                    got = canon_num(submat(p)['r']['X'])
+                except ValueError:
+                    got = {'e': 'ValueError'}
+            finally:
+                os.remove(p)
+            if got != want:
+                out.append(['submat read', text, got])
+    return out
+
+
+# ----------------------------------------------------------------------------- a working directory with files, directories, links
+
+def fsdir_norm(case):
+    """(entries [(name, kind, payload)], called name, aspath): bare printable names, unique"""
+    ok = lambda n: isinstance(n, str) and n not in ('', '.', '..') and all(32 < ord(ch) < 127 and ch != '/' for ch in n) and len(n) < 60
+    ents, seen = [], set()
+    for e in case.get('entries', []):
+        if isinstance(e, list) and len(e) == 3 and ok(e[0]) and e[0] not in seen and e[1] in ('f', 'd', 'l'):
+            if e[1] == 'f' and isinstance(e[2], dict):
+                ents.append((e[0], 'f', render(e[2])))
+            elif e[1] == 'd':
+                ents.append((e[0], 'd', None))
+            elif e[1] == 'l' and ok(e[2]):
+                ents.append((e[0], 'l', e[2]))
+            else:
+                continue
+            seen.add(e[0])
+    call = case.get('call')
+    call = call if ok(call) else 'x'
+    return ents, call, bool(case.get('aspath'))
+
+
+def gen_fsdir(rng, names):
+    base = rng.choice(names + ['mymatrix', 'x', 'readme', 'blosum63']) if rng.random() < 0.85 else 'm'
+    nm = rng.choice([base, base.lower(), base.lower(), ''.join(ch.lower() if rng.random() < 0.5 else ch.upper() for ch in base)])
+    mk = lambda: {k: v for k, v in gen_file(rng).items() if k not in ('op', 'aspath')}
+    kind = rng.choice(['file', 'dir', 'link-file', 'link-dir', 'dangling', 'loop', 'loop2', 'chain', 'link-bundled-name', 'missing', 'other-case'])
+    ents = []
+    if kind == 'file':
+        ents = [[nm, 'f', mk()]]
+    elif kind == 'dir':
+        ents = [[nm, 'd', None]]
+    elif kind == 'link-file':
+        ents = [[nm, 'l', 't1'], ['t1', 'f', mk()]]
+    elif kind == 'link-dir':
+        ents = [[nm, 'l', 't1'], ['t1', 'd', None]]
+    elif kind == 'dangling':
+        ents = [[nm, 'l', 'nothing-here']]
+    elif kind == 'loop':
+        ents = [[nm, 'l', nm]]
+    elif kind == 'loop2':
+        ents = [[nm, 'l', 't1'], ['t1', 'l', nm]]
+    elif kind == 'chain':
+        k = rng.choice([2, 3, 5, 39, 40, 41, 42])
+        ents = [[nm, 'l', 'c1']] + [['c%d' % i, 'l', 'c%d' % (i + 1)] for i in range(1, k)] + [['c%d' % k, 'f', mk()]]
+    elif kind == 'link-bundled-name':
+        ents = [[nm, 'l', 'BLOSUM62']]              # the target is a bundled NAME, not a file here: dangling
+    elif kind == 'other-case':
+        ents = [[nm.swapcase(), 'f', mk()]]
+    if rng.random() < 0.3:
+        ents.append(['zz-other', rng.choice(['f', 'd']), mk()])
+    return {'op': 'fsdir', 'entries': ents, 'call': nm, 'aspath': rng.random() < 0.3, 'kind': kind}
+
+
+def impl_fsdir(case):
+    from sugar.data import submat
+    _isolate(submat)
+    ents, call, aspath = fsdir_norm(case)
+    cwd = os.getcwd()
+    d = tempfile.mkdtemp(prefix='C20-fs-')
+    try:
+        os.chdir(d)
+        for n, k, p in ents:
+            if k == 'f':
+                with open(n, 'wb') as f:
+                    f.write(file_bytes(p))
+            elif k == 'd':
+                os.mkdir(n)
+            else:
+                os.symlink(p, n)
+        tag = 'user' if os.path.isfile(call) else 'name'
+        try:
+            m = submat(pathlib.Path(call) if aspath else call)
+        except FileNotFoundError as e:
+            msg = str(e)
+            mark = 'available matrices: '
+            return [tag, ['fnf', msg[msg.index(mark) + len(mark):] if mark in msg else msg]]
+        return [tag, canon_matrix(m)]
+    finally:
+        os.chdir(cwd)
+        shutil.rmtree(d, ignore_errors=True)
+
+
+def fsdir_term(case):
+    ents, call, aspath = fsdir_norm(case)
+
+    def ent(n, k, p):
+        return '(%s, %s)' % (coq_bs(n), 'FReg %s' % coq_bs(p) if k == 'f' else 'FDir' if k == 'd' else 'FLink %s' % coq_bs(p))
+    if not all(in_model(p) for n, k, p in ents if k == 'f'):
+        return OUTSIDE_MODEL
+    return 'out (run_C20d %s %s)' % (coq_list([ent(*e) for e in ents]), coq_bs(call))
+
+
+def fsdir_file_dict(case):
+    """the abstract file (dict) that the called name leads to"""
+    d = {e[0]: e for e in case.get('entries', []) if isinstance(e, list) and len(e) == 3 and isinstance(e[0], str)}
+    ents, call, aspath = fsdir_norm(case)
+    n = call
+    for _ in range(45):
+        e = d.get(n)
+        if e is None:
+            return None
+        if e[1] == 'f':
+            return e[2] if isinstance(e[2], dict) else None
+        if e[1] != 'l':
+            return None
+        n = e[2]
+    return None
+
+
+def fsdir_target(case):
+    """the oracle's own walk through the links: text of the regular file the called name leads to, or None"""
+    ents, call, aspath = fsdir_norm(case)
+    d = {n: (k, p) for n, k, p in ents}
+    n, hops = call, 0
+    while n in d and hops <= 40:
+        k, p = d[n]
+        if k == 'f':
+            return p
+        if k == 'd':
+            return None
+        n, hops = p, hops + 1
+    return None
+
+
 # ----------------------------------------------------------------------------- generators
 
 LETTER_POOLS = ['ARNDCQEGHILKMFPSTWYVBZX*', 'ACGTRYSWKMBDHVN', 'abcdefghijklmnop', '0123456789', '*-+.#@!$%&/()=?<>[]{}|~^_:;,',
@@ -398,7 +711,7 @@ def gen_history(rng):
         r = rng.random()
         if r < 0.3:
             nm = rng.choice(HIST_NAMES) if rng.random() < 0.9 else rng.choice(['blosum62', 'Blosum62', 'pam250', 'PAM250'])
-            st = {'s': 'name', 'name': nm}
+            st = {'s': 'name', 'name': nm, 'aspath': rng.random() < 0.2}
         elif r < 0.6 or not files:
             if files and rng.random() < 0.3:
                 f = rng.choice(files)                      # the same content under another (or the same) path
@@ -476,6 +789,12 @@ def gen_cases(rng, tier):
         else:
             u = ''.join(rng.choice('abcXYZ019._-') for _ in range(rng.randint(1, 9)))
         unknown.append(u.lower() if rng.random() < 0.5 else u)
+    joined = ', '.join(names)
+    for _ in range(300 if thorough else 40):         # pieces of the listing itself (a name, a fragment, two names with the separator)
+        i = rng.randrange(len(joined))
+        u = joined[i:i + rng.choice([1, 1, 2, 3, 4, 6, 8, 12, 20])]
+        unknown.append(u.lower() if rng.random() < 0.5 else u)
+    unknown += ['blosum', 'PAM', 'pam1', 'nuc.4', '62', 'H', ',', ', ', ' ', 'BLOSUM62, BLOSUM65', 'blosum62,', joined, joined.lower()]
     for u in unknown:
         cases.append({'op': 'name', 'name': u})
     # former defect witnesses (fix ceb95f9): not matrices, must be reported missing with the list
@@ -495,8 +814,24 @@ def gen_cases(rng, tier):
         cases.append({'op': 'file', 'raw': raw})
     for _ in range(1500 if thorough else 260):
         cases.append(gen_history(rng))
-    for _ in range(1500 if thorough else 200):
+    for _ in range(600 if thorough else 60):
         cases.append(gen_numfile(rng))
+    for _ in range(2500 if thorough else 170):
+        cases.append(gen_mfile(rng))
+    for _ in range(6000 if thorough else 500):
+        cases.append(gen_numtok(rng))
+    if thorough:                              # every word of up to 4 characters over the core alphabet
+        import itertools
+        for n in range(0, 5):
+            for t in itertools.product('01._e+-', repeat=n):
+                cases.append({'op': 'numtok', 'tok': ''.join(t)})
+    for _ in range(1200 if thorough else 130):
+        cases.append(gen_fsdir(rng, names))
+    for n in rng.sample(names, 60 if thorough else 12):      # Path objects that are no file are treated like names
+        nm = rng.choice([n, n.lower(), './' + n.lower(), n.lower() + '/', 'x/../' + n, n + '//'])
+        cases.append({'op': 'name', 'name': nm, 'aspath': True})
+    for nm in ['', '.', 'xyz', 'a/b', 'blosum', 'PAM', 'H', '62', ',', ', ', 'BLOSUM62, BLOSUM65']:
+        cases.append({'op': 'name', 'name': nm, 'aspath': True})
     for n in (names if thorough else ['NUC', 'NUC.4.2', 'NUC.4.4', 'IDENTITY', 'MATCH', 'BLOSUM62', 'PAM250', 'GONNET']):
         cases.append({'op': 'cwdfile', 'fname': n.lower(), 'call': n.lower(), 'aspath': False,
                       'file': {'lines': [{'k': 'w', 'w': ['A', 'C'], 'sep': ' ', 'lead': ' ', 'trail': ''},
@@ -544,9 +879,16 @@ def _isolate(submat):
         cc()
 
 
-def _call_name(submat, name, keep=None):
+def path_text(name):
+    """os.fspath(pathlib.Path(name)): what submat sees of a Path that is no file (pathlib normalises '', './x', 'x/', 'a//b')"""
+    return os.fspath(pathlib.PurePosixPath(name))
+
+
+def _call_name(submat, name, keep=None, aspath=False):
     try:
-        m = submat(name)
+        m = submat(pathlib.Path(name) if aspath else name)
+        if aspath:
+            name = path_text(name)
     except FileNotFoundError as e:
         msg = str(e)
         mark = 'available matrices: '
@@ -569,7 +911,7 @@ def plan(case):
         k = st.get('s') if isinstance(st, dict) else None
         if k == 'name' and isinstance(st.get('name'), str):
             calls.append(len(acts))
-            acts.append(('name', st['name']))
+            acts.append(('name', st['name'], bool(st.get('aspath'))))
         elif k == 'file' and isinstance(st.get('file'), dict):
             slot = st.get('slot', 0) % len(SLOTS)
             txt = render(st['file'])
@@ -591,6 +933,9 @@ def plan(case):
     return acts
 
 
+EDITS = {'delrow': 'EDelRow', 'addrow': 'EAddRow', 'clear': 'EClear', 'cell': 'ECell'}
+
+
 def _edit_result(m, kind):
     """in-place edit of a matrix that submat returned (what a caller may do with its own dict)"""
     if not isinstance(m, dict):
@@ -610,12 +955,42 @@ def _edit_result(m, kind):
                 break
 
 
+def _call_plain(submat, arg, keep):
+    """[object or None], canonical value of one call (matrix / ['fnf', listing] / {'e': class})"""
+    try:
+        m = submat(arg)
+    except FileNotFoundError as e:
+        msg = str(e)
+        mark = 'available matrices: '
+        keep.append(None)
+        return ['fnf', msg[msg.index(mark) + len(mark):] if mark in msg else msg]
+    except Exception as e:
+        keep.append(None)
+        return {'e': type(e).__name__}
+    keep.append(m)
+    return canon_matrix(m)
+
+
+def _identity(objs, k):
+    """index of the first earlier call that handed out the very same dict, or a dict sharing a row dict with this one (else k)"""
+    m = objs[k]
+    if not isinstance(m, dict):
+        return k
+    rows = set(id(r) for r in m.values())
+    for j in range(k):
+        o = objs[j]
+        if o is m or (isinstance(o, dict) and any(id(r) in rows for r in o.values())):
+            return j
+    return k
+
+
 def impl_history(case):
+    """[[None | [identity, content] per step], [content of every handed-out object at the end]]"""
     from sugar.data import submat
     _isolate(submat)
     cwd = os.getcwd()
     d = tempfile.mkdtemp(prefix='C20-hist-')
-    out, objs = [], {}
+    out, objs, idx = [], [], {}
     try:
         os.makedirs(os.path.join(d, 'cwd'))
         for sub in ('a', 'b'):
@@ -623,32 +998,26 @@ def impl_history(case):
         os.chdir(os.path.join(d, 'cwd'))     # empty working directory for the name steps
         for i, a in enumerate(plan(case)):
             if a[0] == 'name':
-                keep = []
-                try:
-                    out.append(_call_name(submat, a[1], keep))
-                except Exception as e:
-                    out.append({'e': type(e).__name__})
-                objs[i] = keep[0] if keep else None
+                idx[i] = len(objs)
+                v = _call_plain(submat, pathlib.Path(a[1]) if len(a) > 2 and a[2] else a[1], objs)
+                out.append([_identity(objs, len(objs) - 1), v])
             elif a[0] == 'file':
                 p = os.path.join(d, SLOTS[a[1]])
                 with open(p, 'wb') as f:
                     f.write(file_bytes(a[2]))
-                try:
-                    m = submat(pathlib.Path(p) if a[3] else p)
-                    objs[i] = m
-                    out.append(canon_matrix(m))
-                except Exception as e:
-                    objs[i] = None
-                    out.append({'e': type(e).__name__})
+                idx[i] = len(objs)
+                v = _call_plain(submat, pathlib.Path(p) if a[3] else p, objs)
+                out.append([_identity(objs, len(objs) - 1), v])
             elif a[0] == 'mutate':
-                _edit_result(objs.get(a[1]), a[2])
+                _edit_result(objs[idx[a[1]]], a[2])
                 out.append(None)
             else:
                 out.append(None)
+        final = [canon_matrix(o) if isinstance(o, dict) else None for o in objs]
     finally:
         os.chdir(cwd)
         shutil.rmtree(d, ignore_errors=True)
-    return out
+    return [out, final]
 
 
 def impl_cwdfile(case):
@@ -675,6 +1044,10 @@ def impl(case):
         return impl_history(case)
     if case['op'] == 'cwdfile':
         return impl_cwdfile(case)
+    if case['op'] == 'numtok':
+        return impl_numtok(case)
+    if case['op'] == 'fsdir':
+        return impl_fsdir(case)
     _isolate(submat)
     if case['op'] == 'name':
         name = case['name']
@@ -682,16 +1055,23 @@ def impl(case):
         d = tempfile.mkdtemp(prefix='C20-cwd-')
         try:
             os.chdir(d)            # an empty working directory: isfile(name) is False for every relative name
-            return _call_name(submat, name)
+            return _call_name(submat, name, aspath=bool(case.get('aspath')))
         finally:
             os.chdir(cwd)
             os.rmdir(d)
-    content = numfile_text(case) if case['op'] == 'numfile' else render(case)
+    content = numfile_text(case) if case['op'] == 'numfile' else mfile_text(case) if case['op'] == 'mfile' else render(case)
     fd, p = tempfile.mkstemp(prefix='C20-file-')
     arg = pathlib.Path(p) if case.get('aspath') else p
     try:
         with os.fdopen(fd, 'wb') as f:
             f.write(file_bytes(content))
+        if case['op'] == 'mfile':
+            b = content.encode('latin-1')
+            try:
+                m = canon_matrix(submat(arg))
+            except Exception as e:
+                m = {'e': type(e).__name__}
+            return [len(b), cksum(b), m, m]
         if case['op'] == 'numfile' or coq_rendered(case):
             b = content.encode('latin-1')          # the model's text: one byte per code point (< 256 here)
             try:
@@ -718,21 +1098,34 @@ def model_term(case):
     if case['op'] == 'file' and not in_model(render(case)):
         return OUTSIDE_MODEL
     if case['op'] == 'hist':
-        if not all(in_model(a[2]) for a in plan(case) if a[0] == 'file'):
+        acts = plan(case)
+        if not all(in_model(a[2]) for a in acts if a[0] == 'file'):
             return OUTSIDE_MODEL
-        ts = []
-        for a in plan(case):
+        ts, ordinal, n = [], {}, 0
+        for i, a in enumerate(acts):
             if a[0] == 'name':
-                ts.append('run_C20 0%%N %s []' % coq_bs(a[1]))
+                ordinal[i] = n
+                n += 1
+                ts.append('HCall %s None' % coq_bs(path_text(a[1]) if len(a) > 2 and a[2] else a[1]))
             elif a[0] == 'file':
-                ts.append('run_C20 1%%N [] %s' % coq_bs(a[2]))
+                ordinal[i] = n
+                n += 1
+                ts.append('HCall %s (Some %s)' % (coq_bs(SLOTS[a[1]]), coq_bs(a[2])))
+            elif a[0] == 'mutate':
+                ts.append('HEdit %d%%nat %s' % (ordinal[a[1]], EDITS.get(a[2], 'ECell')))
             else:
-                ts.append('VNone')
-        return 'out (hist_C20 %s)' % coq_list(ts)
+                ts.append('HSkip')
+        return 'out (run_C20h %s)' % coq_list(ts)
     if case['op'] == 'name':
-        return 'out (run_C20 0%%N %s [])' % coq_bs(case['name'])
+        return 'out (run_C20 0%%N %s [])' % coq_bs(path_text(case['name']) if case.get('aspath') else case['name'])
     if case['op'] == 'numfile':
         return numfile_term(case)
+    if case['op'] == 'mfile':
+        return mfile_term(case)
+    if case['op'] == 'numtok':
+        return 'out (run_C20n %s)' % coq_bs(case['tok']) if all(ord(ch) < 256 for ch in case['tok']) else OUTSIDE_MODEL
+    if case['op'] == 'fsdir':
+        return fsdir_term(case)
     if coq_rendered(case):
         return 'out (run_C20f %s)' % coq_list([coq_aline(l) for l in case.get('lines', []) if isinstance(l, dict)])
     return 'out (run_C20 1%%N [] %s)' % coq_bs(render(case))
@@ -742,13 +1135,25 @@ def split_model(case, m):
     return bool(m[0]), m[1]
 
 
+def _model_num(x):
+    if isinstance(x, list):
+        f = _to_float(Fraction(x[0], 10 ** x[1]))
+        return {'f': (0.0 if f == 0 else f).hex()}
+    return x
+
+
+def _model_any(v):
+    """a model value that is a matrix, ['fnf', listing] or an exception"""
+    if isinstance(v, dict) or v is None:
+        return v
+    if v and isinstance(v[0], str):
+        return v
+    return [[r, [[c, _model_num(x)] for c, x in row]] for r, row in v]
+
+
 def _norm_model(v):
     """model numbers [m, k] -> the float CPython must produce (DESIGN 5.3)"""
-    def num(x):
-        if isinstance(x, list):
-            f = float(Fraction(x[0], 10 ** x[1]))
-            return {'f': (0.0 if f == 0 else f).hex()}
-        return x
+    num = _model_num
 
     def mat(mm):
         if isinstance(mm, dict):
@@ -768,8 +1173,15 @@ def _norm_model(v):
 def agree(case, implval, modelval):
     try:
         if case['op'] == 'hist':
-            return isinstance(implval, list) and len(implval) == len(modelval) and \
-                all(i == (None if m is None else _norm_model(m)) for i, m in zip(implval, modelval))
+            obs, fin = modelval
+            return implval == [[None if o is None else [o[0], _model_any(o[1])] for o in obs],
+                               [_model_any(o) if isinstance(o, list) and not (o and isinstance(o[0], str)) else None for o in fin]]
+        if case['op'] == 'mfile':
+            return implval == [modelval[0], modelval[1], _model_any(modelval[2]), _model_any(modelval[3])]
+        if case['op'] == 'numtok':
+            return implval == [modelval[0], _model_num(modelval[1])]
+        if case['op'] == 'fsdir':
+            return implval == [modelval[0], _model_any(modelval[1])]
         return implval == _norm_model(modelval)
     except Exception:
         return False
@@ -857,20 +1269,40 @@ def read_bundled(name):
     return expected_from_words(wl)
 
 
+def _as_name_value(g):
+    return g if isinstance(g, dict) or (g and isinstance(g[0], str)) else ['file', 0, 0, g]
+
+
 def spec_history(case, got):
-    if not isinstance(got, list):
+    if not (isinstance(got, list) and len(got) == 2 and isinstance(got[0], list)):
         return 'history raised %r' % (got,)
     acts = plan(case)
+    got, final = got
     if len(acts) != len(got):
         return 'driver returned %d results for %d steps' % (len(got), len(acts))
+    ncall, edited = 0, set()
     for i, (a, g) in enumerate(zip(acts, got)):
         why = None
+        if a[0] in ('name', 'file'):
+            if not (isinstance(g, list) and len(g) == 2):
+                return 'step %d: driver value %r' % (i, g)
+            if g[0] != ncall:
+                return 'step %d: the call handed out (part of) the object of call number %d again' % (i, g[0])
+            ncall += 1
+            g = g[1]
         if a[0] == 'name':
-            why = spec({'op': 'name', 'name': a[1]}, g)
+            why = spec({'op': 'name', 'name': path_text(a[1]) if a[2] else a[1]}, _as_name_value(g))
         elif a[0] == 'file':
             why = spec(dict(a[5], op='file', _plain=True), g)
         if why:
             return 'step %d (%s%s): %s' % (i, a[0], ' ' + repr(a[1]) if a[0] == 'name' else ' slot %s' % SLOTS[a[1]] if a[0] == 'file' else '', why)
+    # objects the caller never edited still hold what their call returned
+    calls = [i for i, a in enumerate(acts) if a[0] in ('name', 'file')]
+    edited = set(a[1] for a in acts if a[0] == 'mutate')
+    for k, i in enumerate(calls):
+        if i not in edited and k < len(final) and isinstance(got[i][1], list) and not (got[i][1] and isinstance(got[i][1][0], str)):
+            if final[k] != got[i][1]:
+                return 'the matrix returned by step %d changed although the caller never touched it' % i
     return None
 
 
@@ -883,6 +1315,33 @@ def spec(case, got):
             why = spec(dict(case.get('file') if isinstance(case.get('file'), dict) else {}, op='file', _plain=True), got)
             return 'file ./%s exists, submat(%r): %s' % (fname, call, why) if why else None
         return spec({'op': 'name', 'name': call}, got)
+    if case['op'] == 'mfile':
+        exp = mfile_expected(case)
+        if exp is None:
+            return None
+        if not (isinstance(got, list) and len(got) == 4):
+            return 'driver value %r' % (got,)
+        return compare_matrix(got[2], exp)
+    if case['op'] == 'numtok':
+        if not isinstance(got, list) or len(got) < 2:
+            return 'driver value %r' % (got,)
+        if len(got) > 2:
+            return 'word %r: int() -> %r, float() -> %r, but as a cell of %r submat read %r' % (case['tok'], got[0], got[1], got[2][1], got[2][2])
+        return None
+    if case['op'] == 'fsdir':
+        ents, call, aspath = fsdir_norm(case)
+        if not (isinstance(got, list) and len(got) == 2):
+            return 'driver value %r' % (got,)
+        tgt = fsdir_target(case)
+        if tgt is not None:
+            fd = fsdir_file_dict(case)
+            if got[0] != 'user':
+                return None                   # the operating system disagrees with the oracle's walk: no opinion
+            why = spec(dict(fd, op='file', _plain=True), got[1]) if fd is not None else None
+            return './%s leads to a regular file, submat(%r): %s' % (call, call, why) if why else None
+        if got[0] != 'name':
+            return None
+        return spec({'op': 'name', 'name': call}, _as_name_value(got[1]))
     if case['op'] == 'numfile':
         exp = numfile_expected(case)
         if exp is None:
@@ -891,7 +1350,7 @@ def spec(case, got):
             return 'driver value %r' % (got,)
         return compare_matrix(got[3], exp)
     if case['op'] == 'name':
-        name = case['name']
+        name = path_text(case['name']) if case.get('aspath') else case['name']
         names = _bundled()
         if any(ord(ch) > 127 for ch in name) or name.startswith('/') or ('/' in name and '..' in name):
             return None
@@ -999,6 +1458,30 @@ def nontrivial(case, got):
                 marks.append('hist:repeat')
             seen.add(key)
         return sorted(set(marks)) or ['hist']
+    if case['op'] == 'mfile':
+        pre, header, body, e, final = mfile_norm(case)
+        rows = [l for l in body if l['k'] == 'r']
+        ks = ['m:' + e, 'm:final' if final else 'm:no-final-terminator']
+        for l in rows:
+            kinds = set(len(v) for sep, v in l['cells'])
+            ks.append('m:mixed-row' if kinds == {1, 2} else 'm:decimal-row' if kinds == {2} else 'm:int-row')
+            n = len(l['cells']) - len(header['w'])
+            ks.append('m:long-row' if n > 0 else 'm:short-row' if n < 0 else 'm:full-row')
+            if l['r'] not in header['w']:
+                ks.append('m:row-letter-not-in-header')
+        if len(set(l['r'] for l in rows)) != len(rows):
+            ks.append('m:repeated-row-letter')
+        if len(set(header['w'])) != len(header['w']):
+            ks.append('m:repeated-header-letter')
+        if any(l['k'] != 'r' for l in body):
+            ks.append('m:skip-inside')
+        return sorted(set(ks))
+    if case['op'] == 'numtok':
+        if not isinstance(got, list):
+            return None
+        return ['tok:int=%s,float=%s' % ('err' if isinstance(got[0], dict) and 'e' in got[0] else 'ok', 'err' if isinstance(got[1], dict) and 'e' in got[1] else 'ok')]
+    if case['op'] == 'fsdir':
+        return ['fs:' + str(case.get('kind')), 'fs:' + (got[0] if isinstance(got, list) and got else '?')] + (['path-arg'] if case.get('aspath') else [])
     if case['op'] == 'cwdfile':
         fname, call, txt, aspath = cwd_norm(case)
         b = fname.upper() in _bundled()
@@ -1057,6 +1540,8 @@ def histkey(case, got):
         acts = plan(case)
         return ['op=hist', 'hist:calls=%d' % len([a for a in acts if a[0] in ('name', 'file')])] + \
             sorted(set('hist:' + a[0] for a in acts))
+    if case['op'] in ('mfile', 'numtok', 'fsdir'):
+        return ['op=' + case['op']]
     if case['op'] == 'cwdfile':
         fname, call, txt, aspath = cwd_norm(case)
         return ['op=cwdfile', 'cwdfile:' + ('shadows-bundled' if fname.upper() in _bundled() else 'plain') + (',called' if call == fname else ',other-spelling')]
@@ -1088,6 +1573,15 @@ def python_snippet(case):
                 "os.chdir(tempfile.mkdtemp()); open(%r, 'wb').write(%r)\n"
                 "print(submat(%s))   # the file ./%s exists in the working directory") % (
                     fname, file_bytes(txt), ('pathlib.Path(%r)' % call) if aspath and call == fname else repr(call), fname)
+    if case['op'] == 'numtok':
+        return 'from sugar.data import submat\nt = %r\nfor f in (int, float):\n    try: print(f(t))\n    except ValueError as e: print(e)' % case['tok']
+    if case['op'] == 'fsdir':
+        ents, call, aspath = fsdir_norm(case)
+        ls = ['import os, tempfile, pathlib; from sugar.data import submat', 'os.chdir(tempfile.mkdtemp())']
+        for n, k, p in ents:
+            ls.append('open(%r, "wb").write(%r)' % (n, file_bytes(p)) if k == 'f' else 'os.mkdir(%r)' % n if k == 'd' else 'os.symlink(%r, %r)' % (p, n))
+        ls.append('print(os.path.isfile(%r), submat(%s))' % (call, 'pathlib.Path(%r)' % call if aspath else repr(call)))
+        return '\n'.join(ls)
     if case['op'] == 'hist':
         lines = ['import os, tempfile, pathlib', 'from sugar.data import submat',
                  'd = tempfile.mkdtemp(); os.makedirs(d + "/a"); os.makedirs(d + "/b"); os.makedirs(d + "/cwd"); os.chdir(d + "/cwd"); r = {}']
@@ -1105,7 +1599,7 @@ def python_snippet(case):
         return 'from sugar.data import submat; print(submat(%r))' % case['name']
     return ("import tempfile, os, pathlib; from sugar.data import submat\n"
             "f = tempfile.NamedTemporaryFile('wb', delete=False); f.write(%r); f.close()\n"
-            "try:\n    print(submat(%s))\nfinally:\n    os.remove(f.name)") % (file_bytes(numfile_text(case) if case['op'] == 'numfile' else render(case)),
+            "try:\n    print(submat(%s))\nfinally:\n    os.remove(f.name)") % (file_bytes(numfile_text(case) if case['op'] == 'numfile' else mfile_text(case) if case['op'] == 'mfile' else render(case)),
                                                                                   'pathlib.Path(f.name)' if case.get('aspath') else 'f.name')
 
 
@@ -1120,7 +1614,15 @@ LEVEL_TEXT = ('Machine-checked Coq theorems over the regenerated raw bytes of al
               'literals m/10^k written canonically are read back as exactly (m, k), so a rendered matrix of numbers loads as these numbers. '
               'The hand-written model of submat() (text layer, line filter, split/zip/convert, dict building, name lookup) is tied to sugar '
               'by differential testing of all cells of all bundled files under several spellings, of generated files (str and Path '
-              'arguments), of files whose text and number literals are produced by the model itself, and of multi-call histories.')
+              'arguments), of files whose text and number literals are produced by the model itself, and of multi-call histories. '
+              'Round 7: C20_parse_render_matrix gives the whole result as an equation, parse(render M) = rows in file order with zip(letters, numbers) per row, '
+              'for matrices of numbers of ANY shape (rectangular as NUC.4.2, short and long rows - zip truncation -, repeated letters) in ANY layout '
+              '(comments and blank lines anywhere, arbitrary in-line white space, LF/CRLF/CR, missing final terminator), with the int/float choice '
+              'per ROW (C20_row_kind: one decimal literal anywhere in the row, also beyond the last header letter, makes every cell a float); '
+              'C20_skipped_lines_irrelevant / C20_insert_skipped_line for arbitrary text; a state machine of call histories '
+              '(C20_calls_independent, C20_objects_independent: every call hands out a new object with the pure result; the lru_cache variant is '
+              'refuted, C20_cached_variant_refuted); C20_fs_resolution over directories with regular files, directories, symbolic links, dangling links and link loops. '
+              'The cell grammar of int()/float() (signs, leading zeros, underscores between digits, exponents) is a Gallina function compared with CPython on every generated word.')
 LEVEL_NOTE = ('Trusted: Coq kernel/vm_compute, tools/gens/c20.py (byte copy; length+checksum re-verified in Coq against the disk file), the '
               'correspondence harness, CPython str/int/float/open/os.path.isfile/importlib.resources. Modelled rather than verified: '
               'submat() and _submat_files(); decoded text over code points 0..255 (the locale\'s default text encoding is assumed to be '
